@@ -181,6 +181,51 @@ def upword_specs(rnd):
     return specs
 
 
+def dot_specs(rnd):
+    """specifications of u.v with u, v avoiding the same patterns (a product with the same non-atom child class on both sides
+    of the separator): a class, its image under a relabelling of the alphabet, an unrelated class"""
+    import upword
+
+    al = rnd.choice(["ab", "ab", "abc"])
+    pats = upword.rand_patterns(rnd, al, 3, 2)
+    perm = list(al)
+    rnd.shuffle(perm)
+    t = str.maketrans(al, "".join(perm))
+    groups = [pats, sorted(p.translate(t) for p in pats), upword.rand_patterns(rnd, al, 3, 2)]
+    specs = []
+    for pt in groups:
+        db = rnd.choice(list(DBS))
+        sd = rnd.randrange(1000)
+        try:
+            specs.append(({"dot": list(pt), "alphabet": al, "db": db, "seed": sd}, dot_spec(pt, al, db, sd)))
+        except SpecificationNotFound:
+            pass
+        except speccheck.Timeout:
+            raise
+        except Exception:  # noqa: BLE001  (faults of a plain search belong to C01/C04)
+            pass
+        finally:
+            specrun.quiet()
+    return specs
+
+
+def dot_spec(pt, al, db, sd):
+    import upword
+    from comb_spec_searcher.class_db import ClassDB
+
+    pack = StrategyPack(initial_strats=[upword.Peel("")], inferral_strats=[], expansion_strats=[[upword.SplitDot(), upword.Expand("")]],
+                        ver_strats=[upword.PAtom()], name="dot")
+    s = CombinatorialSpecificationSearcher(upword.SW1(pt, al, "."), pack, ruledb=DBS[db](), classdb=ClassDB(upword.PW))
+    specrun.quiet()
+    st = random.getstate()
+    random.seed(sd)
+    try:
+        return s.auto_search()
+    finally:
+        random.setstate(st)
+        specrun.quiet()
+
+
 def worker(args):
     import signal
 
@@ -229,6 +274,7 @@ def worker(args):
                     out["problems"].append(("search-raises", {"avoid": pt, "alphabet": al}, specrun.exc_info(exc)))
             if rnd.random() < 0.4:
                 specs += upword_specs(rnd)
+            dots = dot_specs(random.Random(rnd.randrange(10**9))) if rnd.random() < 0.5 else []
             out["specs"] += len(specs)
             for name, sp in specs:
                 # reflexivity: all verified classes of these specifications are atoms
@@ -242,6 +288,11 @@ def worker(args):
                     judge_pair(n1, a, n2, b, N, out)
             if specs:
                 judge_pair(specs[0][0], specs[0][1], specs[0][0], specs[0][1], N, out)
+            out["specs"] += len(dots)
+            for (n1, a), (n2, b) in itertools.combinations(dots, 2):
+                judge_pair(n1, a, n2, b, min(N, 5), out)
+            if dots:
+                judge_pair(dots[0][0], dots[0][1], dots[0][0], dots[0][1], min(N, 5), out)
     except speccheck.Timeout:
         out["timeout"] = True
     finally:
@@ -294,8 +345,14 @@ def replay(case):
         return "re-run the check with the recorded seed (specifications are regenerated from it)"
     specrun.quiet()
     a, b = inp["spec1"], inp["spec2"]
-    s1 = specrun.search(a["cfg"])[1] if "cfg" in a else build_spec(a["avoid"], a["alphabet"], a["db"], a["seed"], a["reloaded"])
-    s2 = specrun.search(b["cfg"])[1] if "cfg" in b else build_spec(b["avoid"], b["alphabet"], b["db"], b["seed"], b["reloaded"])
+    def rebuild(x):
+        if "cfg" in x:
+            return specrun.search(x["cfg"])[1]
+        if "dot" in x:
+            return dot_spec(x["dot"], x["alphabet"], x["db"], x["seed"])
+        return build_spec(x["avoid"], x["alphabet"], x["db"], x["seed"], x["reloaded"])
+
+    s1, s2 = rebuild(a), rebuild(b)
     specrun.quiet()
     out = {"problems": [], "pairs": 0, "bijections": 0, "lines": []}
     judge_pair(a, s1, b, s2, 6, out)
